@@ -143,6 +143,7 @@ type (
 	BoolLit  struct{ V bool }
 	StrLit   struct{ V string }
 	NoneLit  struct{ Ty *Type } // Ty = option type
+	NullLit  struct{}
 	ListLit  struct {
 		Elems []Expr
 		Ty    *Type
@@ -236,20 +237,21 @@ type (
 	Grouped struct{ X Expr }
 )
 
-func (IntLit) T() *Type     { return Int }
-func (FloatLit) T() *Type   { return Float }
-func (BoolLit) T() *Type    { return Bool }
-func (StrLit) T() *Type     { return Str }
-func (n NoneLit) T() *Type  { return n.Ty }
-func (l ListLit) T() *Type  { return l.Ty }
-func (RangeLit) T() *Type   { return Range }
-func (v Var) T() *Type      { return v.Ty }
-func (a Assign) T() *Type   { return Null }
-func (c Call) T() *Type     { return c.Ret }
-func (m MCall) T() *Type    { return m.Ret }
-func (c Cast) T() *Type     { return c.To }
-func (g Grouped) T() *Type  { return g.X.T() }
-func (m Match) T() *Type    { return m.Ty }
+func (IntLit) T() *Type    { return Int }
+func (FloatLit) T() *Type  { return Float }
+func (BoolLit) T() *Type   { return Bool }
+func (StrLit) T() *Type    { return Str }
+func (n NoneLit) T() *Type { return n.Ty }
+func (NullLit) T() *Type   { return Null }
+func (l ListLit) T() *Type { return l.Ty }
+func (RangeLit) T() *Type  { return Range }
+func (v Var) T() *Type     { return v.Ty }
+func (a Assign) T() *Type  { return Null }
+func (c Call) T() *Type    { return c.Ret }
+func (m MCall) T() *Type   { return m.Ret }
+func (c Cast) T() *Type    { return c.To }
+func (g Grouped) T() *Type { return g.X.T() }
+func (m Match) T() *Type   { return m.Ty }
 func (f FnLit) T() *Type {
 	names := make([]string, len(f.Params))
 	ts := make([]*Type, len(f.Params))
